@@ -67,6 +67,7 @@ def message_parts(ids, data_parts, n_data_bits, n_subsets=1, compressed=False, e
             parts.append(b'\0' * fill)
     flags = (0x80 if observed else 0) | (0x40 if compressed else 0)
     parts += [_val(ext[3], 24), b'\0', _val(n_subsets, 16), bytes([flags])]
+    first_descriptor = len(parts)
     for d in ids:
         f, x, y = d // 100000, (d // 1000) % 100, d % 1000
         parts.append(bytes([(f << 6) | x, y]))
@@ -79,7 +80,14 @@ def message_parts(ids, data_parts, n_data_bits, n_subsets=1, compressed=False, e
     if pad:
         parts.append(('val', 0, pad))
     parts.append(b'7777')
+    parts = Parts(parts)
+    parts.first_descriptor = first_descriptor
     return parts, tot
+
+
+class Parts(list):
+    """part list with a few positions remembered (for damage injection)"""
+    first_descriptor = None
 
 
 def bits_to_parts(bits):
